@@ -21,13 +21,17 @@ def callbackRoots : Nat := maskWhere fns (fun f => f.clientCallable && !excluded
 /-- `Drop` impls of the builder types: they release a block that was never linked (C18). -/
 def builderDrops : Nat := maskWhere fns (fun f => f.isDropImpl && f.isBuilder)
 
-def destructiveTags : List Tag :=
-  [.doCollection, .sweepOne, .contextDrop, .dropAllDrop, .gcPtrDropInPlace, .gcPtrDealloc]
+/-- Structural anchors only: the collector driver — a `&mut self` method of `Context` that an
+`Arena` / `MarkedArena` method calls and from which a primitive destructor call is reachable
+(`Context::do_collection` today; tagged by the translator from the graph, not from its name). -/
+def destructiveTags : List Tag := [.doCollection]
 
-/-- The named collector functions (`Context::do_collection`, `Context::sweep_one`,
-`<Context as Drop>::drop`, `<DropAll as Drop>::drop`, `GcPtr::drop_in_place`, `GcPtr::dealloc`)
-plus every node that directly calls a primitive destructor / deallocator, other than the builder
-`Drop` impls. -/
+/-- Every node that directly calls a primitive destructor / deallocator (`ptr::drop_in_place`,
+`alloc::dealloc`, `ManuallyDrop::drop`, `mem::drop`, `Box::from_raw`; the vtable's `drop_value` /
+`dealloc` closures are such nodes), other than the builder `Drop` impls, plus the collector
+driver.  No function name is involved: whatever path leads to reclaiming memory ends in one of
+these nodes, so "cannot reach `destructive`" covers `sweep_one`, the arena destructor,
+`GcPtr::drop_in_place` / `dealloc` under any name. -/
 def destructive : Nat :=
   maskWhere fns (fun f => destructiveTags.contains f.tag) |||
   -- `p &&& (p ^^^ b)` is `p \ b`
